@@ -18,7 +18,9 @@ def run(rep, tier, seed, replay=None):
         return
     rnd = random.Random(seed)
     n = 500 if tier == "quick" else 10000
-    valids = [v for v in netprops.valid_cases("valve", seed + 9, n) if not v.notwf]
+    valids = []
+    for fam in netprops.FAMILIES:
+        valids += [v for v in netprops.valid_cases(fam, seed + 9, n) if not v.notwf and "SENT" in v.tags]
     by_id = {v.id: v for v in valids}
 
     def oracle(case, impl, model, panic):
@@ -40,7 +42,8 @@ def run(rep, tier, seed, replay=None):
 
     vlib.correspond(rep, netprops.corpus("C09") + [v.line for v in valids], oracle=oracle, trivial=netprops.trivial, tag="c09")
     hostile = []
-    for k, v in enumerate(valids[: (300 if tier == "quick" else 5000)]):
+    rnd.shuffle(valids)
+    for k, v in enumerate(valids[: (300 if tier == "quick" else 5000) * len(netprops.FAMILIES)]):
         c, what = netcases.mutate(v.case(), rnd)
         hostile.append(c.line(f"{v.id}m{k}"))
     vlib.correspond(rep, hostile, oracle=lambda c, i, m, p: ([("wrong-ip", "wrong IP")] if "@WRONGIP" in i else []), trivial=netprops.trivial, tag="c09")
